@@ -33,7 +33,7 @@ def main():
     # Guard: never let the backend hand a NumPy-owned buffer to free() inside this process (heap corruption would
     # surface in an unrelated later task).  `free_memref` is replaced by a wrapper that refuses pointers lying in
     # the input buffers of the running task and records the attempt; the parent reports it as a failing input.
-    GUARD = {"ranges": [], "invalid": []}
+    GUARD = {"ranges": [], "invalid": [], "shared": {}}
     real_free = F.free_memref
 
     def guarded_free(ref):
@@ -42,7 +42,31 @@ def main():
             if lo <= p < hi:
                 GUARD["invalid"].append(p)
                 return None
+        if GUARD["shared"].get(p, 0) > 0:   # an allocation two owning storages would both release: let only the last one
+            GUARD["shared"][p] -= 1
+            GUARD["invalid"].append(p)
+            return None
         return real_free(ref)
+
+    def clone_format(f, how):
+        """an equal, separately constructed description of the same storage format"""
+        import copy
+        import dataclasses
+        import pickle
+
+        if how == "ctor":
+            g = F.ConcreteFormat(levels=f.levels, order=f.order, pos_width=f.pos_width, crd_width=f.crd_width, dtype=f.dtype)
+        elif how == "replace":
+            g = dataclasses.replace(f)
+        elif how == "deepcopy":
+            g = copy.deepcopy(f)
+        elif how == "pickle":
+            g = pickle.loads(pickle.dumps(f))
+        else:
+            raise ValueError(how)
+        if g is f or g != f:
+            raise RuntimeError(f"clone_format({how}): not an equal, distinct object")
+        return g
 
     F.free_memref = guarded_free
 
@@ -182,10 +206,20 @@ def main():
     def input_ranges(bufs):
         return [(b.ctypes.data, b.ctypes.data + b.nbytes) for b in bufs if b.nbytes]
 
-    def alias_problems(res, bufs):
-        """pointers of an `owns_memory` result: pairwise distinct (when non-empty) and outside every input buffer"""
+    def alias_problems(res, bufs, operands=()):
+        """pointers of an `owns_memory` result: pairwise distinct (when non-empty), outside every input buffer and
+        different from every field of a (distinct) operand"""
         probs = []
         ptrs = storage_ptrs(res)
+        for o in operands:
+            if o is res:
+                continue
+            optrs = {alloc: j for j, (alloc, _al, _n) in enumerate(storage_ptrs(o)) if alloc}
+            for k, (alloc, _al, _n) in enumerate(ptrs):
+                if alloc and alloc in optrs:
+                    probs.append(f"field {k} of the result is field {optrs[alloc]} of an operand (same allocation)")
+                    if hasattr(type(o._storage), "__del__"):
+                        GUARD["shared"][alloc] = GUARD["shared"].get(alloc, 0) + 1
         seen = {}
         for k, (alloc, aligned, n) in enumerate(ptrs):
             if alloc == 0:
@@ -259,6 +293,7 @@ def main():
         before = [b.tobytes() for b in bufs]
         GUARD["ranges"] = input_ranges(bufs)
         GUARD["invalid"] = []
+        GUARD["shared"] = {}
         op = t["op"]
         res = {"operands": [desc(a) for a in arrays]}
         if op == "add":
@@ -266,15 +301,18 @@ def main():
         elif op == "reshape":
             r = sparse.reshape(arrays[0], tuple(t["shape"]))
         elif op == "asformat":
-            tgt = build_format(t["format"]) if "format" in t else build_operand(t["like"])[0].format
+            if "format_clone" in t:
+                tgt = clone_format(arrays[0].format, t["format_clone"])
+            else:
+                tgt = build_format(t["format"]) if "format" in t else build_operand(t["like"])[0].format
             r = arrays[0].asformat(tgt)
         else:
             raise ValueError(op)
         res["same_object"] = any(r is a for a in arrays)
         res["result"] = desc(r)
         res["owns"] = hasattr(type(r._storage), "__del__")
-        if res["owns"]:
-            res["alias"] = alias_problems(r, bufs)
+        if res["owns"] and not res["same_object"]:
+            res["alias"] = alias_problems(r, bufs, arrays)
         res["input_unchanged"] = before == [b.tobytes() for b in bufs]
         if t.get("then_numpy"):
             d = sparse.formats.Dense().with_ndim(r.ndim).with_dtype(r.dtype.np_dtype).build()
@@ -340,6 +378,7 @@ def main():
             self.role = {}       # id(obj) -> role, while the object is alive (removed by its finaliser)
             self.events = []     # events of the statement being executed
             self.buf_of = {}     # allocated pointer -> (storage role, field index)
+            self.shared = {}     # allocated pointer -> further (storage role, field index) claiming the same allocation
             self.quiet = 0
             self.n = 0
 
@@ -392,16 +431,21 @@ def main():
 
         def free(ref):
             p = ctypes.cast(ref.allocated, ctypes.c_void_p).value or 0
-            tr.events.append(["free", *tr.buf_of.pop(p, ("unknown", p))])
+            if tr.shared.get(p):
+                owner = tr.shared[p].pop()
+            else:
+                owner = tr.buf_of.pop(p, ("unknown", p))
+            tr.events.append(["free", *owner])
             n = len(GUARD["invalid"])
             r = guarded_free(ref)
             if len(GUARD["invalid"]) > n:
-                problems.append("free() of a NumPy-owned input buffer attempted (prevented by the harness)")
+                problems.append("free() of a buffer owned by another object attempted (prevented by the harness)")
             return r
 
         F._hold_ref, F.free_memref = hold, free
         GUARD["ranges"] = []
         GUARD["invalid"] = []
+        GUARD["shared"] = {}
         env = {}
         snaps = {}
         inbytes = {}
@@ -429,7 +473,9 @@ def main():
                     if alloc:
                         if alloc in tr.buf_of:
                             problems.append(f"{name}: field {k} shares its allocation with {tr.buf_of[alloc]}")
-                        tr.buf_of[alloc] = (f"storage:{name}", k)
+                            tr.shared.setdefault(alloc, []).append((f"storage:{name}", k))
+                        else:
+                            tr.buf_of[alloc] = (f"storage:{name}", k)
                     sizes.append(n)
             del st
             return nfields
@@ -469,7 +515,8 @@ def main():
                     elif st[2] == "reshape":
                         x = sparse.reshape(args[0], tuple(p["shape"]))
                     elif st[2] == "asformat":
-                        x = args[0].asformat(build_format(p["format"]))
+                        x = args[0].asformat(clone_format(args[0].format, p["format_clone"]) if "format_clone" in p
+                                             else build_format(p["format"]))
                     else:
                         raise ValueError(st[2])
                     for ev in list(tr.events):  # reshape wraps the target shape in a temporary backend array
@@ -481,7 +528,7 @@ def main():
                         info["alias_of"] = same[0]
                     else:
                         live = [v for v in env.values() if isinstance(v, np.ndarray)]
-                        al = alias_problems(x, live)
+                        al = alias_problems(x, live, args)
                         problems.extend(f"{st[1]}: {p_}" for p_ in al)
                         info["aliased"] = bool(al)
                         del live
